@@ -149,7 +149,7 @@ func (fsm *stateMachine) onApply(t fsmApply) {
 }
 
 func (fsm *stateMachine) onSnapReq(t fsmSnapReq) {
-	if fsm.index == fsm.snaps.index {
+	if snapIndex, _ := fsm.snaps.latest(); fsm.index == snapIndex {
 		t.reply(ErrNoUpdates)
 		return
 	}
@@ -222,7 +222,8 @@ func (r *Raft) onTakeSnapshot(t takeSnapshot) {
 	// hand the request to the state machine from this goroutine: it is then
 	// ordered after every apply sent so far and before any later one, so the
 	// state captured is the one at commitIndex, which is what config describes
-	req := fsmSnapReq{task: newTask(), index: r.snaps.index + t.threshold}
+	snapIndex, _ := r.snaps.latest()
+	req := fsmSnapReq{task: newTask(), index: snapIndex + t.threshold}
 	r.fsm.ch <- req
 	go func(config Config) { // tracked by r.snapTakenCh
 		verifPoint("snapshot.start")
